@@ -7,6 +7,10 @@ Families (sub-commands of harness/src/fsolve.rs and ocaml/fsolve_cmd.ml):
                            propagators, int2float/floor/ceil/round), entries solve/minimize/maximize, root LP on/off,
                            fast path on/off, precisions 1..12.  ORACLE-ONLY (the Model-level float path has no Coq model):
                            every returned assignment is judged with exact rationals (vlib/fmodel.py).
+  fne_routes      solvef   models made of `!=` rows over float (and some integer) variables through every route that posts one
+                           (lin_ne with f64 / i32 coefficients, fluent x.ne(y) / x.ne(c), props.float_lin_ne), constants chosen so
+                           that the first point the search reaches violates the row; satisfiable by construction: a returned
+                           point is judged exactly (`!=` has no tolerance) and NoSolution is a failure.  ORACLE-ONLY.
   flower_cover    lowerf   the same models lowered through hook H2 (Model::verif_lower): every posted constraint that
                            relates a float variable to another variable must be covered by a propagator that can act on
                            floats (structural reading of "never silently ignored"); the lowering DECISION (IntLin* or
@@ -241,8 +245,7 @@ def classify_lower(line, impl, cls):
     case = fm.Case(line)
     u = uncovered(line, impl)
     if not u: return cls
-    cs = [fm.row_class(case, r) for r in u]
-    return cs[0] if all(c in ("float_ne",) for c in cs) else None
+    return None      # no known class: every `!=` row over float variables is lowered to FloatLinNe (class float_ne repaired in /repo)
 def gen_lower(tier, rng):
     return [c for c in gen_random(tier, rng)][: (800 if tier == "quick" else 20000)]
 
@@ -265,13 +268,74 @@ def corr_lower(line, impl, mpart):
             vs = sorted(int(x) for x in re.findall(r"VarId\((\d+)\)", p.split("variables:")[1].split("]")[0]))
             got[("I:" if m.group(1) == "IntLin" else "F:") + ",".join(map(str, vs))] += 1
     return want == got
+# ------------------------------------------------------------------------------------------------ disequalities over float variables
+def gen_ne(tier, rng):
+    """models whose only constraints are `!=` rows over float (and some integer) variables, through every route that posts one
+    (m.lin_ne with f64 / i32 coefficients, fluent x.ne(y) / x.ne(c), m.props.float_lin_ne), plus at most one interior bound.
+    Every variable has a domain at least 8 steps wide, so the model is satisfiable (a `!=` row excludes a null set): NoSolution
+    is a failure too.  Most constants are chosen so that the point the search reaches FIRST (every variable at its lower
+    bound) - or the one at the upper bounds - violates the row: an inert propagator returns exactly that point."""
+    out = []
+    for _ in range(600 if tier == "quick" else 20000):
+        prec = rng.choice([1, 2, 2, 3, 4, 6, 6])
+        st = Fraction(fm.step_of(prec))
+        nv = rng.choice([1, 2, 2, 3])
+        decls, lohi = [], []
+        for i in range(nv):
+            if rng.random() < 0.25 and i > 0:
+                lo = rng.randint(-3, 3); hi = lo + rng.randint(1, 4); decls.append("I %d %d" % (lo, hi))
+            else:
+                lo = Fraction(rng.randint(-8, 8), 4); hi = lo + rng.choice([8 * st, 20 * st, Fraction(1, 2), 3, 10]); decls.append("F %s %s" % (hq(lo), hq(hi)))
+            lohi.append((Fraction(lo), Fraction(hi)))
+        fl = [i for i, d in enumerate(decls) if d.startswith("F")]
+        posts = []
+        for _ in range(rng.choice([1, 1, 2, 3])):
+            k = min(nv, rng.choice([1, 2, 2, 3]))
+            xs = rng.sample(range(nv), k)
+            if not any(x in fl for x in xs): xs[0] = rng.choice(fl)
+            xs = list(dict.fromkeys(xs))
+            corner = rng.choice([0, 0, 0, 1])
+            route = rng.choice(["lin", "ilin", "new", "new", "props"])
+            if route == "new" and len(xs) <= 2:
+                if len(xs) == 2:
+                    posts.append("new ne(x%d,x%d)" % (xs[0], xs[1]))
+                else:
+                    c = lohi[xs[0]][corner] if rng.random() < 0.7 else lohi[xs[0]][0] + st * rng.randint(0, 8)
+                    posts.append("new ne(x%d,%s)" % (xs[0], ("f:" + hq(c)) if (c.denominator != 1 or rng.random() < 0.5) else str(int(c))))
+                continue
+            if route == "ilin":
+                cs = [rng.choice([-2, -1, 1, 1, 2]) for _ in xs]
+                K = sum(c * lohi[x][corner if c > 0 else 1 - corner] for c, x in zip(cs, xs))
+                if K.denominator != 1 or rng.random() < 0.3: K = Fraction(rng.randint(-3, 3))
+                posts.append("ilin ne %s %s %d" % (",".join(map(str, cs)), ",".join("x%d" % x for x in xs), int(K)))
+                continue
+            cs = [rng.choice(fm.NICE) for _ in xs]
+            K = sum(c * lohi[x][corner if c > 0 else 1 - corner] for c, x in zip(cs, xs))
+            if rng.random() < 0.25: K += st * rng.randint(-3, 3)
+            body = "%s %s %s" % (",".join(hq(c) for c in cs), ",".join("x%d" % x for x in xs), hq(K))
+            posts.append(("props flinne " if route == "props" else "lin ne ") + body)
+        if rng.random() < 0.3:
+            v = rng.choice(fl); lo, hi = lohi[v]
+            posts.append("new %s(x%d,f:%s)" % (rng.choice(["le", "ge"]), v, hq(lo + (hi - lo) / 2)))
+        entry = "solve" if (prec > 3 or rng.random() < 0.7) else "%s x%d" % (rng.choice(["min", "max"]), rng.randrange(nv))
+        out.append(" ; ".join([str(prec), "|".join(decls)] + posts + [entry, "to 400"]))
+    return out
+def judge_ne(line, impl, spec):
+    if impl.startswith("err NoSolution"):
+        return "NoSolution for a model that only has `!=` rows (and one interior bound) over domains at least 8 steps wide"
+    return judge_solve(line, impl, spec)
+def nontrivial_ne(line, impl):
+    return impl.startswith("ok ") or impl.startswith("err NoSolution")
+
 FAMILIES = [
     Family("fsolve_random", "solvef", gen_random, split=split_oracle, nontrivial=nontrivial, prop_judge=judge_solve),
+    Family("fne_routes", "solvef", gen_ne, split=split_oracle, nontrivial=nontrivial_ne, prop_judge=judge_ne),
     Family("flower_cover", "lowerf", gen_lower, split=split_kinds, nontrivial=lambda c, i: i.startswith("ok "), prop_judge=judge_lower),
 ]
-FAMILIES[1].corr = corr_lower
+FAMILIES[2].corr = corr_lower
 FAMILIES[0].classify = classify_solve
-FAMILIES[1].classify = classify_lower
+FAMILIES[1].classify = classify_solve
+FAMILIES[2].classify = classify_lower
 
 # ------------------------------------------------------------------------------------------------ arithmetic / element routes (oracle-only)
 def _qf(x):
